@@ -1125,6 +1125,10 @@ fn reuse_split_case(run: &mut Run, idx: usize, w: &W11, text: &str, rng: &mut Rn
     let req: u32 = (rng.below(1024) as u32) | 64 | 128;
     let small: u32 = match rng.below(4) { 0 => 0, 1 => SURFACE, 2 => SURFACE | POS_ID, _ => (rng.below(1024) as u32) & !(64 | 128 | 256) };
     let via_copy = rng.chance(1, 2);
+    // the property promises full-field boundaries only when no path-rewrite plugin is configured or the subset contains the
+    // fields those plugins read; otherwise the mode-C path itself may differ and nothing is judged here
+    let fed = SURFACE | POS_ID | NORMALIZED_FORM;
+    if w.has_path_rewrite && req & fed != fed { run.bump("reuse-split:not-judged(path-rewrite plugins not fed)"); return; }
     let observe = |sub: u32, pre: Option<u32>| -> Result<Result<Vec<(usize, usize, Vec<String>)>, String>, String> {
         catch(|| {
             let mut out = MorphemeList::empty(dic);
